@@ -17,6 +17,7 @@
    tk / trk = tracks.features.time_key / tracklet_key;  pk = position_key (PSingle k | PMulti ks). *)
 From Coq Require Import ZArith List Bool.
 From FT Require Import Base.Dict Model.RoundTrip Proofs.RoundTripProofs.
+From FT Require Proofs.ImportTie Proofs.ExportTie.
 Import ListNotations.
 Open Scope Z_scope.
 
@@ -114,6 +115,23 @@ Definition ex2d : graph :=
                  (40, [(0, [3]); (11, [1006]); (12, [1007]); (2, [9]);  (3, [1])]);
                  (25, [(0, [2]); (11, [1008]); (12, [1009]); (2, [2]);  (3, [4])])];
      g_edges := [(7, 3); (7, 12); (3, 40)] |}.
+
+(* ---- the import pipeline of the model is, for all arguments, the code translated on every run from the current _tracks_builder.py, csv/_import.py, geff/_import.py and _validation.py (Gen/ImportPipeline_gen.v; translator harness/translate_import.py, fail closed; combinators Model/PyRt6.v; pandas dtype inference, geff's id validators and file reading stay oracle inputs).  The statements are those of the cited theorems of Proofs/ImportTie.v: whole CSV build = import_csv, whole GEFF build = import_geff, handle_segmentation = the model's; and the export side of the model is, for all arguments, the code translated on every run from the current csv/_export.py, geff/_export.py, internal_format.py and _feature_dict.py (Gen/ExportPipeline_gen.v; translator harness/translate_export.py, fail closed; combinators Model/PyRt7.v; every file write is an event carrying exactly the value handed to the writer).  The statements are those of the cited theorems of Proofs/ExportTie.v ---- *)
+Theorem C14_csv_build_is_generated : ltac:(let t := type of @FT.Proofs.ImportTie.gen_csv_build_eq in exact t).
+Proof. exact @FT.Proofs.ImportTie.gen_csv_build_eq. Qed.
+
+Theorem C14_geff_build_is_generated : ltac:(let t := type of @FT.Proofs.ImportTie.gen_geff_build_eq in exact t).
+Proof. exact @FT.Proofs.ImportTie.gen_geff_build_eq. Qed.
+
+Theorem C14_export_csv_is_generated : ltac:(let t := type of @FT.Proofs.ExportTie.gen_export_to_csv_all_eq in exact t).
+Proof. exact @FT.Proofs.ExportTie.gen_export_to_csv_all_eq. Qed.
+
+Theorem C14_split_position_is_generated : ltac:(let t := type of @FT.Proofs.ExportTie.gen_split_position_attr_eq in exact t).
+Proof. exact @FT.Proofs.ExportTie.gen_split_position_attr_eq. Qed.
+
+Theorem C14_featuredict_roundtrip_is_generated : ltac:(let t := type of @FT.Proofs.ExportTie.gen_featuredict_roundtrip in exact t).
+Proof. exact @FT.Proofs.ExportTie.gen_featuredict_roundtrip. Qed.
+
 
 Example C14_ex2d_csv :
   export_csv ex2d 0 (PMulti [11; 12]) 2 false =
@@ -251,3 +269,8 @@ Print Assumptions C14_geff_position_roundtrip.
 Print Assumptions C14_geff_attrs_roundtrip.
 Print Assumptions C14_internal_featuredict_roundtrip.
 Print Assumptions C14_track_ids_kept.
+Print Assumptions C14_csv_build_is_generated.
+Print Assumptions C14_geff_build_is_generated.
+Print Assumptions C14_export_csv_is_generated.
+Print Assumptions C14_split_position_is_generated.
+Print Assumptions C14_featuredict_roundtrip_is_generated.
